@@ -447,5 +447,5 @@ fn matrix(_: crate::engine::Tier) -> Vec<LoopCase> {
 
 fn groups(g: &mut Groups) {
     g.enumerate("matrix", matrix, true, check_case);
-    g.prop("random", 72_000, 400_000, || random_case(), check_case);
+    g.prop("random", 72_000, 4_000_000, || random_case(), check_case);
 }
